@@ -28,7 +28,7 @@ class Q:
 
     def __init__(self, name, harness, defs=None, extra=(), libtus=(), remove=(), unwind=2, unwindset=(),
                  mode="func", flags=(), timeout=None, mem_gb=None, uthash="model", note="", bounds=None,
-                 replay=True, replay_libs=(), native_extra=(), kf=(), object_bits=None, group=None, std="gnu99",
+                 replay=True, replay_libs=(), native_extra=None, kf=(), object_bits=None, group=None, std="gnu99",
                  native_only_defs=None, stubs_note=(), gen=None):
         self.name = name
         self.harness = harness
@@ -47,7 +47,7 @@ class Q:
         self.bounds = bounds or {}
         self.replay = replay
         self.replay_libs = list(replay_libs)
-        self.native_extra = list(native_extra)   # native-only replacements for CBMC-only stubs
+        self.native_extra = None if native_extra is None else list(native_extra)   # native-only replacements for CBMC-only stubs
         self.kf = list(kf)                # known-finding ids whose region this query can exhibit
         self.object_bits = object_bits
         self.group = group or harness
@@ -96,7 +96,7 @@ def define_flags(defs):
 
 def build(q, wd, kf_excluded):
     """goto-cc everything for q into wd/q.goto.  Returns (ok, log)."""
-    inc = BASE_INC + [UTHASH_MODEL if q.uthash == "model" else UTHASH_REAL, "-I" + wd]
+    inc = BASE_INC + ([UTHASH_MODEL] if q.uthash == "model" else []) + [UTHASH_REAL, "-I" + wd]
     defs = BASE_DEF + define_flags(q.defs) + ["-DKF_EXCLUDE_%s" % k for k in kf_excluded]
     objs = []
     log = []
@@ -302,7 +302,7 @@ def native_replay(q, script, rdir, kf_excluded):
     with open(os.path.join(rdir, "script.txt"), "w") as f:
         for k, v in script:
             f.write("%s %d\n" % (k, v))
-    inc = BASE_INC + [UTHASH_MODEL if q.uthash == "model" else UTHASH_REAL, "-I" + rdir]
+    inc = BASE_INC + ([UTHASH_MODEL] if q.uthash == "model" else []) + [UTHASH_REAL, "-I" + rdir]
     if q.gen:
         q.gen(rdir)
     defs = BASE_DEF + define_flags(q.defs) + ["-DVERIF_REPLAY"] + ["-DKF_EXCLUDE_%s" % k for k in kf_excluded]
@@ -330,8 +330,14 @@ def native_replay(q, script, rdir, kf_excluded):
         for fn in set(re.findall(r"^static\s+[^;{=]*?\b(\w+)\s*\(", src, re.M)):
             unmangle.append("-D__CPROVER_file_local_%s_%s=%s" % (base, fn, fn))
     exe = os.path.join(rdir, "replay")
-    natives = [os.path.join(VERIF, e) for e in (q.native_extra or q.extra)]
-    cmd = (["gcc", "-std=" + q.std, "-g", "-O0", "-w", "-fsanitize=address,undefined", "-fno-sanitize-recover=undefined", "-ffunction-sections", "-Wl,--gc-sections", "-Wl,--unresolved-symbols=ignore-all",
+    natives = [os.path.join(VERIF, e) for e in (q.native_extra if q.native_extra is not None else q.extra)]
+    # the rest of the library (TUs neither #included by the harness nor linked as libtus), so internal symbols resolve
+    hsrc = open(os.path.join(VERIF, "harness", q.harness)).read()
+    included = set(re.findall(r'#include\s+"(\w+\.c)"', hsrc)) | set(q.libtus)
+    for tu in sorted(os.listdir(os.path.join(REPO, "src"))):
+        if tu.endswith(".c") and tu not in included:
+            natives.append(os.path.join(REPO, "src", tu))
+    cmd = (["gcc", "-std=" + q.std, "-g", "-O0", "-w", "-fsanitize=address,undefined", "-fno-sanitize-recover=undefined", "-ffunction-sections", "-Wl,--gc-sections", "-Wl,--unresolved-symbols=ignore-all", "-Wl,--allow-multiple-definition",
             "-o", exe, wrapper] + natives + inc + defs + unmangle + q.replay_libs + ["-lm"])
     with open(os.path.join(rdir, "build.sh"), "w") as f:
         f.write("#!/bin/sh\n" + " ".join("'%s'" % c for c in cmd) + "\n")
@@ -391,9 +397,10 @@ def run_query(q, tier, workroot, kf_open, keep=False):
         if unwind_fail:
             res.update(verdict="bound-too-small", detail=unwind_fail[:10])
             return res
-        if wit_bad or not wit_ok:
-            res.update(verdict="vacuous", detail=wit_bad or ["no witness in harness"])
-            return res
+        if not fails:
+            if wit_bad or not wit_ok:
+                res.update(verdict="vacuous", detail=wit_bad or ["no witness in harness"])
+                return res
         if not fails:
             res["verdict"] = "holds"
             # known-finding confirmation: run again without the exclusion, the finding must show
